@@ -931,10 +931,11 @@ class FilePath(AbstractFilePath[AnyStr]):
         @return: The child path.
         @rtype: L{FilePath} with a mode equal to the type of C{path}.
         """
+        sep = _coerceToFilesystemEncoding(path, os.sep)
         ourPath = self._getPathAsSameTypeAs(path)
 
         newpath = abspath(joinpath(ourPath, normpath(path)))
-        if not newpath.startswith(ourPath):
+        if newpath != ourPath and not newpath.startswith(ourPath.rstrip(sep) + sep):
             raise InsecurePath(f"{newpath!r} is not a child of {ourPath!r}")
         return self.clonePath(newpath)
 
